@@ -1,4 +1,4 @@
 SPECIFICATION TraceSpec
-INVARIANT I07
+INVARIANT J07
 POSTCONDITION TraceAccepted
 CHECK_DEADLOCK FALSE
